@@ -23,7 +23,7 @@ _binary = {}
 
 def ensure_built(san=False):
     """Build (or reuse) the harness for /repo's current working tree. Raises HarnessError on a compile error."""
-    key = "san" if san else "std"
+    key = "instr" if san == "instr" else ("san" if san else "std")
     if key not in _binary:
         import build as _build
         b = _build.build(os.environ.get("VERIF_REPO", "/repo"), san=san, quiet=not os.environ.get("VERIF_VERBOSE"))
@@ -157,14 +157,14 @@ def run_fresh(text, timeout=30.0, san=False, nowarm=False):
     return RunResult(parse_lines(p.stdout.splitlines(True)), raw, status, sig, False)
 
 
-_server = None
+_server = {}
 
 
 def worker_server(san=False):
-    global _server
-    if _server is None:
-        _server = Server(ensure_built(san))
-    return _server
+    key = "instr" if san == "instr" else ("san" if san else "std")
+    if key not in _server:
+        _server[key] = Server(ensure_built(san))
+    return _server[key]
 
 
 def run(text, timeout=20.0, san=False):
